@@ -60,10 +60,17 @@ def selftest(rep):
         return
     good = lib.lower_socket(tr)
     flipped = [dict(e) for e in good]
-    for e in flipped:
-        if e["e"] == "write" and len(e["b"]) == 4:
-            e["b"] = [e["b"][0] ^ 1] + e["b"][1:]
+    # one bit of the last payload byte of the frame that was written, however many write() calls carried it
+    ws = [e for e in flipped if e["e"] == "write"]
+    total = sum(len(e["b"]) for e in ws)
+    off = total - 3
+    for e in ws:
+        if off < len(e["b"]):
+            b = list(e["b"])
+            b[off] ^= 1
+            e["b"] = b
             break
+        off -= len(e["b"])
     dropped = [e for e in good if e["e"] != "deliver"]
     traces = [{"id": 0, "proto": "at4", "ev": good}, {"id": 1, "proto": "at4", "ev": flipped},
               {"id": 2, "proto": "at4", "ev": dropped}]
